@@ -88,9 +88,12 @@ func (f *atomicFile) Commit() error {
 	if err := f.File.Close(); err != nil {
 		return err
 	}
-	// rename can't overwrite on windows
-	if err := os.Remove(f.name); err != nil && !os.IsNotExist(err) {
-		return err
+	// rename can't overwrite on windows; elsewhere it replaces the
+	// destination atomically, so the old file must not be unlinked first
+	if runtime.GOOS == "windows" {
+		if err := os.Remove(f.name); err != nil && !os.IsNotExist(err) {
+			return err
+		}
 	}
 	if err := os.Rename(f.File.Name(), f.name); err != nil {
 		return err
